@@ -269,7 +269,10 @@ class UnitSystemManager(Singleton):
                 # an empty unit system.
                 units_mapping = {}
 
-        unit_system = self._default_unit_system_class(id, caption, units_mapping, read_only)
+        # Each unit system must have its own mapping (it's changed through SetDefaultUnit).
+        unit_system = self._default_unit_system_class(
+            id, caption, dict(units_mapping), read_only
+        )
         self._unit_systems[id] = unit_system
 
         if self._current is None:
